@@ -259,6 +259,28 @@ func init() {
 				jobs = append(jobs, Job{Dir: "z80", Harness: "VC07", Params: []int{3, p}, Label: fmt.Sprintf("VC07/im0-rst%02x", p*8)})
 			}
 			jobs = append(jobs, Job{Dir: "z80", Harness: "VC07", Params: []int{4, 0}, Label: "VC07/im0-call"})
+			// relational form: (accept; handler; return; X) vs (X) for the instruction X at the boundary
+			encs := append(reprEncs(), encsOf("ctl", "ir")...)
+			if tier == "thorough" {
+				encs = allEncodings()
+			}
+			// LD A,R observes the refresh counter, which the handler's fetches advance
+			// ("States minus R"): not a transparent observer, excluded
+			var encs2 []Enc
+			for _, e := range encs {
+				if !(e.Tbl == 2 && e.Op == 0x5f) {
+					encs2 = append(encs2, e)
+				}
+			}
+			for k := 0; k < 3; k++ {
+				jobs = append(jobs, stepJobs(encs2, "VC07Rel", k)...)
+			}
+			for i := range jobs {
+				if jobs[i].Harness == "VC07Rel" {
+					jobs[i].Params = []int{jobs[i].Params[2], jobs[i].Params[0], jobs[i].Params[1]}
+					jobs[i].Label = fmt.Sprintf("VC07Rel/%s/%s", names[jobs[i].Params[0]], Enc{jobs[i].Params[1], jobs[i].Params[2]})
+				}
+			}
 			return jobs
 		},
 		Bounds: map[string]interface{}{"steps": 3, "handler": "the minimal transparent one: EI; RETI (NMI: RETN), assumed present at the handler address after the acceptance push", "kinds": "NMI, IM1, IM2 (vector byte and I symbolic), IM0 with RST p (8) and CALL nn", "symbolic": "the boundary state: all of States (any PC, so also on a block instruction or a HALT), HALT, memory"},
@@ -404,14 +426,15 @@ func init() {
 				k = 4
 			}
 			for bp := 0; bp <= 1; bp++ {
-				jobs = append(jobs, Job{Dir: "z80", Harness: "VC08Script", Params: []int{bp, k}, Label: fmt.Sprintf("VC08Script/bp%d/k%d", bp, k), MaxForks: 4096, MaxPaths: 100000})
+				jobs = append(jobs, Job{Dir: "z80", Harness: "VC08Script", Params: []int{bp, k, 0}, Label: fmt.Sprintf("VC08Script/bp%d/k%d", bp, k), MaxForks: 4096, MaxPaths: 100000})
+				jobs = append(jobs, Job{Dir: "z80", Harness: "VC08Script", Params: []int{bp, k, 1}, Label: fmt.Sprintf("VC08Script/bp%d/k%d/nmi", bp, k), MaxForks: 4096, MaxPaths: 100000})
 			}
-			for p := 0; p <= 11; p++ {
+			for p := 0; p <= 13; p++ {
 				jobs = append(jobs, Job{Dir: "z80", Harness: "VC08Prog", Params: []int{p}, Label: fmt.Sprintf("VC08Prog/%d", p), MaxForks: 256})
 			}
 			return jobs
 		},
-		Bounds: map[string]interface{}{"scripted": "all programs of <= 3 (thorough 4) instructions drawn from {HALT, NOP, JP nn, LD BC,nn, INC A} with arbitrary operands, arbitrary start state and stale HALT flag, BreakPoints nil or an arbitrary set of <= 2 addresses; Run with the real Step vs a Step-driven twin with the stop rule written out", "skeletons": "12 concrete program skeletons (<= 8 Steps) on an address-consistent bus with symbolic registers/data: HALT first, NOPs+HALT, breakpoint on start PC / on the HALT / inside a 3-byte instruction / across PC wrap / on a jumped-to HALT, DJNZ loop, second Run on a halted CPU, OUT whose device raises NMI / INT (enabled, disabled)"},
+		Bounds: map[string]interface{}{"scripted": "all programs of <= 3 (thorough 4) instructions drawn from {HALT, NOP, JP nn, LD BC,nn, INC A} with arbitrary operands, arbitrary start state and stale HALT flag, BreakPoints nil or an arbitrary set of <= 2 addresses; Run with the real Step vs a Step-driven twin with the stop rule written out", "scripted_interrupts": "same with the device raising an NMI during any instruction (shapes HALT, NOP, INC A)", "skeletons": "14 concrete program skeletons (<= 8 Steps) on an address-consistent bus with symbolic registers/data: HALT first, NOPs+HALT, breakpoint on start PC / on the HALT / inside a 3-byte instruction / across PC wrap / on a jumped-to HALT, DJNZ loop, second Run on a halted CPU, OUT whose device raises NMI / INT (enabled, disabled), the same with a breakpoint on the handler entry"},
 		Assume: []string{"cancellation never happens (C13 covers it)", "scripted memory is not address-consistent (it models arbitrary instruction streams); address-consistent behaviour is covered by the skeletons", "programs longer than the bound: by induction over loop iterations (Run keeps no state between iterations besides the CPU — checked by the twin equality at every length up to the bound)"},
 		Stubs:  runStubs,
 		Rule:   "2 scripted jobs (every path = one program shape x stop behaviour) + 12 skeleton jobs; obligations: return value, number of Steps, final States/HALT, write log or bus trace, memory",
